@@ -30,6 +30,7 @@ type rbScnStream struct {
 	k        int    // live: files listed by the first playlist; ll: complete segments listed
 	msn      int
 	endlist  bool
+	llEnd    bool // ll: the last reload (no hint) carries ENDLIST — the stream ends (fix-F28) instead of "preload hint disappeared"
 	pdt      map[int]int64
 	noMap    bool
 	plBodies map[int][]byte // overrides by seq
@@ -252,7 +253,7 @@ func (st *rbScnStream) script(s int) (map[int][]byte, []int) {
 			if hint >= n {
 				hint = -1
 			}
-			out[j] = []byte(rbMediaPlaylist(rbPlOpt{s: s, ext: st.ext, mapURI: mapURI, msn: st.msn, first: 0, n: st.k, pdt: st.pdt, ll: true, hintFile: hint}))
+			out[j] = []byte(rbMediaPlaylist(rbPlOpt{s: s, ext: st.ext, mapURI: mapURI, msn: st.msn, first: 0, n: st.k, pdt: st.pdt, ll: true, hintFile: hint, endlist: hint < 0 && st.llEnd}))
 			if hint >= 0 {
 				order = append(order, hint)
 			}
@@ -1048,6 +1049,15 @@ func rbGenCase(r *rand.Rand, _ int, tier string) (*rbCase, []string) {
 				x.mode, x.k = "ll", 1
 			}
 			sc.must, sc.fault, sc.faults = "err", "ll-hint-ends", 1
+			llEnd := r.Intn(2) == 0
+			if llEnd {
+				// the origin ends every Low-Latency stream properly: last reload without hint, with ENDLIST ⇒ ErrClientEOS
+				for _, x := range sc.streams {
+					x.llEnd = true
+				}
+				sc.must, sc.fault, sc.faults = "ok", "ll-endlist-eos", 0
+				sc.tags = append(sc.tags, "ll-endlist-eos")
+			}
 			if r.Intn(2) == 0 {
 				// F15 in its original habitat: LL parts without any sample (a rendition; or a rendition playlist opened directly)
 				rs := sc.streams[r.Intn(len(sc.streams))]
@@ -1057,6 +1067,9 @@ func rbGenCase(r *rand.Rand, _ int, tier string) (*rbCase, []string) {
 					}
 				}
 				sc.fault = "ll-hint-ends+empty-parts"
+				if llEnd {
+					sc.must, sc.fault = "any", "ll-endlist-eos+empty-parts"
+				}
 			}
 			sc.tags = append(sc.tags, "family=low-latency")
 		default:
